@@ -427,6 +427,38 @@ def step (s : St) (line : String) : St × String :=
         let (out, _) := runQuery s.unsq t s.pts.size
         (s, out ++ (if lbok then "" else " LB-MISMATCH") ++ (if adm then "" else " INADMISSIBLE"))
     | none => (s, "bad-op")
+  | "mt" :: kind :: md :: mb :: k :: nthreads :: reps :: qb :: rest =>
+    -- FRESH trees shared by the threads of the loop over batches (harness/c17_mt.cpp): the observation is the
+    -- exhaustive search of the model (`bruteForce`), to which the tree search is equal by kd_search_exact /
+    -- lc_search_exact_point_queue / khc_search_exact_point_queue - for every thread count, repetition and batch size
+    match md.toNat?, mb.toNat?, k.toNat?, nthreads.toNat?, reps.toNat?, qb.toNat?, rest.mapM String.toInt? with
+    | some _, some _, some k, some nt, some reps, some qb, some qs =>
+      let n := s.pts.size
+      let kindOk := kind = "kd" ∨ kind = "lc" ∨ kind = "khc" ∨ kind = "khcp"
+      if s.dim = 0 ∨ qs.length = 0 ∨ qs.length % s.dim ≠ 0 ∨ ¬ kindOk ∨ k = 0 ∨ k > n ∨ nt < 1 ∨ nt > 16 ∨ reps = 0 ∨ qb = 0
+      then (s, "bad-op") else
+      let m := qs.length / s.dim
+      let poly := (kind = "khcp")
+      let lab := fun i => s.labels.getD i 0
+      let numClasses := (s.labels.foldl max 0) + 1
+      -- (the batches of the generator often repeat the same query points: each distinct one is searched once)
+      let allq := chunks s.dim qs m
+      let one := fun (qi : List Int) =>
+        let q : Point := qi.map fun (x : Int) => (x : Rat) * pow2r s.scale
+        let dist : Nat → Rat := fun i => if poly then featureDist2 (polyKernel 2 1) (s.P i) q else dist2 (s.P i) q
+        let bf := bruteForce dist n n
+        let bfk := bf.take k
+        let dk := (bfk.getLast?.map (·.1)).getD 0
+        let lastLab := lab ((bfk.getLast?.map (·.2)).getD 0)
+        let ambiguous : Bool := match bf[k]? with
+          | some nxt => decide (nxt.1 = dk) && (bf.any fun x => decide (x.1 = dk) && decide (lab x.2 ≠ lastLab))
+          | none => false
+        let cs := predictClass ratArith numClasses (fun _ => 1) (bfk.map fun x => (x.1, lab x.2))
+        String.join (bfk.map fun x => s!"{ratInt (s.unsq x.1)} ") ++ "class=" ++ (if ambiguous then "*" else toString cs)
+      let table := allq.eraseDups.map fun qi => (qi, one qi)
+      let outs := allq.map fun qi => ((table.find? fun e => e.1 == qi).map (·.2)).getD ""
+      (s, "mt " ++ joinWith " / " outs)
+    | _, _, _, _, _, _, _ => (s, "bad-op")
   | op :: k :: w :: rest =>
     if op ≠ "knn" ∧ op ≠ "model" ∧ op ≠ "reg" then (s, "bad-op") else
     match k.toNat?, w.toNat?, rest.mapM String.toInt? with
